@@ -278,6 +278,14 @@ def run(ctx):
         ('time > 5 AND group column = other column * 2', binop('and', binop('>', tcol(), const(5)), binop('=', ident('ta.grp'), binop('*', ident('ta.other'), const(2)))), {}),
         ('group column = other column', binop('=', ident('ta.grp'), ident('ta.other')), {}),
     ]
+    # any ORDER BY: also one that names the model's own order column, in any direction / letter case / qualification - the statement's ordering is not applied
+    # by the plan, so accepting it silently drops it (and a LIMIT then cuts an un-ordered result)
+    for col_label, mk in (('the time column', tcol), ('the time column, unqualified', lambda: ident(TIME)), ('the time column in upper case', lambda: ident('ta.' + TIME.upper())),
+                          ('a group column', lambda: ident('ta.grp'))):
+        for direction in ('default', 'ASC', 'DESC', 'desc'):
+            rej.append((f'ORDER BY {col_label} {direction}', None, {'order_by': [Obj('OrderBy', field=mk(), direction=direction, nulls='default')]}))
+    rej.append(('ORDER BY the time column DESC, another column', None,
+                {'order_by': [Obj('OrderBy', field=tcol(), direction='DESC', nulls='default'), Obj('OrderBy', field=ident('ta.x'), direction='default', nulls='default')]}))
     for label, where, extra in rej:
         res = run_ptp(where, ['grp'], None, extra)
         rows += 1
